@@ -362,9 +362,12 @@ def parse_svg(doc):
     """Lenient about *absent* parts (an absent transform is the identity, an absent layer is empty, an absent axis line
     is reported to the properties that own it); anything that is present but unreadable is a harness error."""
     try:
-        root = ET.fromstring(doc)
+        root = ET.fromstring(doc.encode("utf-8") if isinstance(doc, str) and doc.lstrip().startswith("<?xml") else doc)
     except ET.ParseError as e:
         raise Violation("svg-not-well-formed", "the SVG export is not well-formed XML: %s" % e)
+    for el in root.iter():  # an xmlns declaration must not matter: compare local names
+        if isinstance(el.tag, str) and "}" in el.tag:
+            el.tag = el.tag.split("}", 1)[1]
     try:
         out = {"width": root.get("width"), "height": root.get("height"), "problems": []}
         g0 = root[0]
@@ -516,7 +519,7 @@ def _chains(tl_obj):
     return out
 
 
-def check_c07(spec, P, tl_obj, backend, today):
+def check_c07(spec, P, tl_obj, backend, today, svg_ticks=None):
     """returns info used by the C08 oracle; raises Violation"""
     kind = spec["kind"]
     o = effective_opts(spec)
@@ -692,17 +695,16 @@ def check_c07(spec, P, tl_obj, backend, today):
         if backend == "tex" and not deg:
             # TikZ prints tick origins with %i: compare with the truncation of where the scale's own ticks belong
             # (the tick list itself is C13/C16's business; here the pairing of text and position is judged)
-            sc = tl_obj.options["scale"]
-            want = lib_call(lambda: list(sc.ticks()))
-            if len(want) != len(P["ticks"]):
-                raise Violation("tick-count", "%d ticks drawn, the scale has %d" % (len(P["ticks"]), len(want)))
-            for (p, text), tv in zip(P["ticks"], want):
-                tnum = float(tv) if kind == "linear" else (tv - tg.EPOCH) / tg.MS
-                pos = f(tnum)
-                if abs(a(p) - int(pos)) > 1e-9 and abs(a(p) - int(pos + 1e-9)) > 1e-9 and abs(a(p) - int(pos - 1e-9)) > 1e-9:
-                    raise Violation("tick-position", "tick %r drawn at %r, belongs at %r (truncated %r)" % (text, a(p), pos, int(pos)))
-                if lib_call(fmt, tv) != text:
-                    raise Violation("tick-text", "tick at %r reads %r, the value there formats as %r" % (a(p), text, fmt(tv)))
+            # (the SVG ticks of the same spec have been judged exactly - text against the instant at the printed
+            # position; how many ticks a back-end asks for is its own business)
+            if svg_ticks is not None:
+                if len(svg_ticks) != len(P["ticks"]):
+                    raise Violation("tick-count", "%d ticks in the TikZ export, %d in the SVG export of the same timeline" % (len(P["ticks"]), len(svg_ticks)))
+                for (p, text), (sp, stext) in zip(P["ticks"], svg_ticks):
+                    if text != stext:
+                        raise Violation("tick-text", "TikZ tick at %r reads %r, the SVG tick there reads %r" % (a(p), text, stext))
+                    if abs(a(p) - int(a(sp))) > 1e-9:
+                        raise Violation("tick-position", "TikZ tick %r drawn at %r, belongs at %r (truncated %r)" % (text, a(p), a(sp), int(a(sp))))
     elif P["ticks"] is not None:
         raise Violation("ticks-shown", "showTicks is off")
     return dict(got=got, nodeH=nodeH, gap=gap, lg=lg, sgn=sgn, L=L, deg=deg, f=f, maxlayer=max(g[3] for g in got))
